@@ -252,6 +252,15 @@ Theorem receive_datagrams_total : forall ds c,
 Proof. exact receive_all_total. Qed.
 Print Assumptions receive_datagrams_total.
 
+(* the loop over the packets of a datagram never runs out of fuel: every iteration that continues has consumed at least
+   one byte, so any two fuels above the number of remaining bytes give the same result *)
+Theorem datagram_loop_fuel_independent : forall f1 f2 total c bs orcs tr,
+  CodecProofs.bytes_ok bs -> dconn_ok c -> q_end (d_state c) = false -> d_pending c = false ->
+  (length bs < f1)%nat -> (length bs < f2)%nat ->
+  dgram_loop f1 true total c bs orcs tr = dgram_loop f2 true total c bs orcs tr.
+Proof. exact dgram_fuel_independent. Qed.
+Print Assumptions datagram_loop_fuel_independent.
+
 (* a parsed header has consumed at least one byte (the loop terminates), and a Retry header its 16-byte tag
    (so `buf.data_slice(start_off, buf.tell() - 16)` cannot raise) *)
 Theorem header_consumes : forall hcl bs h rest,
